@@ -209,7 +209,15 @@ def gen_task_class():
                     import json as _json
                     with open(cf, "a") as fh:
                         fh.write(_json.dumps(trace._enc_pos(x)) + "\n")
-                return OBJECTIVE_TABLE[d.get("objective", "zero")](x)
+                if d.get("raise_after") is not None:
+                    d["raise_after"] -= 1
+                    if d["raise_after"] < 0:
+                        raise RuntimeError("scripted objective failure")
+                name = d.get("objective", "zero")
+                if name.startswith("-"):      # the negated objective (C12: maximising f is minimising -f)
+                    v = OBJECTIVE_TABLE[name[1:]](x)
+                    return [-c for c in v] if isinstance(v, list) else -v
+                return OBJECTIVE_TABLE[name](x)
 
         GenTask.__module__ = __name__
         GenTask.__qualname__ = "GenTask"
